@@ -490,9 +490,22 @@ func ruleHeaderSpelling(p *Prog, r *Report) {
 // R27 order — the variable list is ordered by position, and Size() counts the stored elements.
 func ruleVariableOrder(p *Prog, r *Report) {
 	const rule = "R27-order"
-	if fn := p.MustFunc(r, "ast", "getVariableNames"); fn != nil {
+	if p.Func("ast", "getVariableNames") == nil {
+		// the sorting routine is not to be found under its name: the listing of
+		// an array node is evaluated instead
 		key := rule + ":ast.getVariableNames:ascending-by-position"
-		if d, decided, ok := variableNamesByEvaluation(p, fn); decided {
+		if vf := p.Func("ast", "(*IntNode).Variables"); vf == nil {
+			r.unk(rule, key, "", "neither getVariableNames nor (*IntNode).Variables found")
+		} else if d, decided, ok := variableNamesByEvaluation(p, vf, "p0.variables"); !decided {
+			r.unk(rule, key, p.Pos(vf.Pos()), "no function getVariableNames, and (*IntNode).Variables could not be evaluated")
+		} else if ok {
+			r.ok(rule, key, p.Pos(vf.Pos()), "(*IntNode).Variables "+d)
+		} else {
+			r.bad(rule, key, p.Pos(vf.Pos()), d)
+		}
+	} else if fn := p.MustFunc(r, "ast", "getVariableNames"); fn != nil {
+		key := rule + ":ast.getVariableNames:ascending-by-position"
+		if d, decided, ok := variableNamesByEvaluation(p, fn, "p0"); decided {
 			if ok {
 				r.ok(rule, key, p.Pos(fn.Pos()), d)
 			} else {
@@ -565,7 +578,13 @@ sizes:
 				}
 				_ = gv
 				k2 := rule + ":ast.(*" + tn + ").Variables"
-				if okv {
+				if d, decided, good := variableNamesByEvaluation(p, vf, "p0.variables"); decided {
+					if good {
+						r.ok(rule, k2, p.Pos(vf.Pos()), "lists the node's own variables: "+d)
+					} else {
+						r.bad(rule, k2, p.Pos(vf.Pos()), d)
+					}
+				} else if okv {
 					r.ok(rule, k2, p.Pos(vf.Pos()), "lists the names of the node's own variable map, position-sorted")
 				} else {
 					r.bad(rule, k2, p.Pos(vf.Pos()), "Variables() is not getVariableNames(node.variables)")
@@ -1677,7 +1696,7 @@ func notationOfNode(p *Prog, fn *ssa.Function, node string) (string, bool, bool)
 // variableNamesByEvaluation: getVariableNames evaluated on maps of up to four
 // names with distinct positions, the names visited in several orders: the
 // result must list them by ascending position.
-func variableNamesByEvaluation(p *Prog, fn *ssa.Function) (string, bool, bool) {
+func variableNamesByEvaluation(p *Prog, fn *ssa.Function, mapPath string) (string, bool, bool) {
 	type scen struct {
 		visit []string
 		pos   map[string]int64
@@ -1697,12 +1716,12 @@ func variableNamesByEvaluation(p *Prog, fn *ssa.Function) (string, bool, bool) {
 		var keys []Val
 		for _, k := range sc.visit {
 			keys = append(keys, strVal(k))
-			in.InitBind["p0["+strVal(k).String()+"]"] = int64Val(sc.pos[k])
+			in.InitBind[mapPath+"["+strVal(k).String()+"]"] = int64Val(sc.pos[k])
 		}
-		in.MapKeys["p0"] = keys
-		in.PathBind["len(p0)"] = int64Val(int64(len(keys)))
+		in.MapKeys[mapPath] = keys
+		in.PathBind["len("+mapPath+")"] = int64Val(int64(len(keys)))
 		args := defaultArgs(fn)
-		if len(args) > 0 {
+		if len(args) > 0 && mapPath == "p0" {
 			args[0] = Val{K: KPtr, S: "p0"}
 		}
 		out := in.Run(fn, args, nil)
